@@ -79,6 +79,7 @@ type tableCase struct {
 	Routes    []routeSpec  `json:"routes"`
 	Events    []tableEvent `json:"events"`
 	Reuse     bool         `json:"reuse"` // overwrite and reuse the input buffer after every Dispatch
+	StallAggs bool         `json:"stall_aggs"` // keep the aggregators from draining their inbox until all lines were dispatched
 	Recheck   bool         `json:"recheck"`
 }
 
@@ -157,6 +158,7 @@ func (r *recRoute) Update(opts map[string]string) error {
 }
 
 type tableEnv struct {
+	stallOut chan []byte
 	tab    *table.Table
 	routes []*recRoute
 	dests  [][]*dest.Destination
@@ -232,7 +234,14 @@ func buildTable(c *tableCase) (*tableEnv, error) {
 		}
 		tick := make(chan time.Time)
 		env.ticks = append(env.ticks, tick)
-		ag, err := aggregator.NewMocked(a.Fun, m, a.OutFmt, a.Cache, a.Interval, a.Wait, a.DropRaw, env.tab.In, 0,
+		out, inBuf := env.tab.In, 0
+		if c.StallAggs {
+			if env.stallOut == nil {
+				env.stallOut = make(chan []byte)
+			}
+			out, inBuf = env.stallOut, 10000
+		}
+		ag, err := aggregator.NewMocked(a.Fun, m, a.OutFmt, a.Cache, a.Interval, a.Wait, a.DropRaw, out, inBuf,
 			func() time.Time { return time.Unix(atomic.LoadInt64(&env.clock), 0) }, tick)
 		if err != nil {
 			return nil, fmt.Errorf("bad aggregator: %v", err)
@@ -369,7 +378,10 @@ func runTable(raw json.RawMessage) (interface{}, error) {
 	defer env.close()
 	var out []evObs
 	scratch := make([]byte, 0, 256)
-	for _, ev := range c.Events {
+	if c.StallAggs {
+		atomic.StoreInt64(&env.clock, 1000)
+	}
+	for evi, ev := range c.Events {
 		var o evObs
 		start := time.Now()
 		c0, d0, a0 := tblCounts(), env.destCounts(), env.aggCounts()
@@ -390,7 +402,9 @@ func runTable(raw json.RawMessage) (interface{}, error) {
 			} else {
 				env.tab.Dispatch(line)
 			}
-			env.barrier(false)
+			if !c.StallAggs {
+				env.barrier(false)
+			}
 		case "agg":
 			env.tab.DispatchAggregate(line)
 			env.barrier(false)
@@ -402,6 +416,19 @@ func runTable(raw json.RawMessage) (interface{}, error) {
 			env.barrier(true)
 		case "now":
 			atomic.StoreInt64(&env.clock, ev.Now)
+		}
+		if c.StallAggs && evi == 0 {
+			// the first event is the warm-up point: once it is in its bucket, a tick makes every
+			// aggregator block in Flush on its (undrained) output; later points pile up in the inbox
+			for _, a := range env.aggs {
+				ag := a
+				waitFor(10*time.Second, func() bool { return ag.VerifInLen() == 0 })
+				a.Snapshot()
+			}
+			for _, t := range env.ticks {
+				t <- time.Unix(100000, 0)
+			}
+			atomic.StoreInt64(&env.clock, 200000)
 		}
 		c1, d1, a1 := tblCounts(), env.destCounts(), env.aggCounts()
 		for i := range c1 {
@@ -450,6 +477,40 @@ func runTable(raw json.RawMessage) (interface{}, error) {
 		}
 		out = append(out, o)
 	}
+	var aggKeys []string
+	if c.StallAggs {
+		// let the aggregators go on: drain their output, flush everything, collect the emitted series names
+		var mu sync.Mutex
+		seen := map[string]bool{}
+		done := make(chan struct{})
+		go func() {
+			for l := range env.stallOut {
+				if i := bytes.IndexByte(l, ' '); i > 0 {
+					mu.Lock()
+					seen[string(l[:i])] = true
+					mu.Unlock()
+				}
+			}
+			close(done)
+		}()
+		for _, a := range env.aggs {
+			ag := a
+			waitFor(10*time.Second, func() bool { return ag.VerifInLen() == 0 })
+			a.Snapshot()
+		}
+		for _, t := range env.ticks {
+			t <- time.Unix(10000000, 0)
+		}
+		for _, a := range env.aggs {
+			a.Snapshot()
+		}
+		time.Sleep(time.Millisecond)
+		mu.Lock()
+		for k := range seen {
+			aggKeys = append(aggKeys, hx([]byte(k)))
+		}
+		mu.Unlock()
+	}
 	// isolation: every slice handed to a route must still hold what it held at hand-off
 	mutated := false
 	for _, r := range env.routes {
@@ -459,7 +520,7 @@ func runTable(raw json.RawMessage) (interface{}, error) {
 			}
 		}
 	}
-	return map[string]interface{}{"events": out, "mutated": mutated}, nil
+	return map[string]interface{}{"events": out, "mutated": mutated, "agg_keys": aggKeys}, nil
 }
 
 func init() {
